@@ -135,6 +135,15 @@ func (x *Run) storeField(st *State, ref string, ty types.Type, i int, v Val) {
 	}
 	name := x.fieldArr(ty, i)
 	x.setArr(st, name, store(x.arr(st, name), ref, v.T))
+	if _, isChan := types.Unalias(ft).Underlying().(*types.Chan); isChan && v.T != "0" {
+		// the channel is from now on known through this field: carry its closed flag over
+		src := x.chClosedFor(v, ft)
+		dst := "ChClosed@" + name
+		x.arrSort(dst, "(Array Int Bool)")
+		if src != dst {
+			x.setArr(st, dst, store(x.arr(st, dst), v.T, sel(x.arr(st, src), v.T)))
+		}
+	}
 	if isNegLit(ref) {
 		if st.lit[name] == nil {
 			st.lit[name] = map[string]Val{}
@@ -414,7 +423,8 @@ type mapArrs struct{ dom, val, ln string }
 
 func (x *Run) mapArrs(mt *types.Map) mapArrs {
 	ks, vs := x.d.sortOf(mt.Key()), x.d.sortOf(mt.Elem())
-	base := sortMangle(ks) + "." + sortMangle(vs)
+	// one family of arrays per Go map type (maps of different types never alias)
+	base := shortTypeName(mt)
 	m := mapArrs{"Md." + base, "Mv." + base, "Ml." + base}
 	x.arrSort(m.dom, Sort(fmt.Sprintf("(Array Int (Array %s Bool))", ks)))
 	x.arrSort(m.val, Sort(fmt.Sprintf("(Array Int (Array %s %s))", ks, vs)))
@@ -510,7 +520,7 @@ func (x *Run) makeMap(st *State, ty types.Type) Val {
 	ref := intLit(int64(-st.nfresh))
 	ks := x.d.sortOf(mt.Key())
 	x.setArr(st, a.dom, store(x.arr(st, a.dom), ref, fmt.Sprintf("((as const (Array %s Bool)) false)", ks)))
-	x.setArr(st, a.val, store(x.arr(st, a.val), ref, fmt.Sprintf("((as const (Array %s %s)) %s)", ks, x.d.sortOf(mt.Elem()), x.d.zero(mt.Elem()))))
+	x.setArr(st, a.val, store(x.arr(st, a.val), ref, x.d.constArray(string(ks), x.d.sortOf(mt.Elem()), x.d.zero(mt.Elem()))))
 	x.setArr(st, a.ln, store(x.arr(st, a.ln), ref, "0"))
 	return Val{T: ref, S: SInt, Ty: ty, Fresh: true}
 }
@@ -554,7 +564,7 @@ func (x *Run) mkSlice(s Sort, arr, ln string) string {
 // struct field is closed only through that field), so that effects of
 // unrelated code on other channels of the same type do not clobber it.
 func (x *Run) chClosedFor(v Val, t types.Type) string {
-	if v.Origin != "" && !isNegLit(v.T) {
+	if v.Origin != "" {
 		name := "ChClosed@" + v.Origin
 		x.arrSort(name, "(Array Int Bool)")
 		return name
